@@ -196,12 +196,15 @@ def generate(tier, seed):
                     add("vw.copy %s a=%s b=%s" % (h, b, a))
                     add("sp.subspan %s a=%s b=%s" % (h, a, b))
         # ---- array (violating indices only where the check is active: SAFE)
-        for cap in (1, 3):
+        for cap in (0, 1, 3):
             e = content(cap)
             for k in (0, 1):
                 for i in idxs(cap):
                     valid = isinstance(i, int) and i < cap
-                    add("ar.at cap=%d e=%s i=%s k=%d" % (cap, fl(e), i, k), "ar.at" if valid else "ar.at!safe")
+                    # a zero-size array checks `false` in both configurations
+                    add("ar.at cap=%d e=%s i=%s k=%d" % (cap, fl(e), i, k), "ar.at" if valid or cap == 0 else "ar.at!safe")
+                add("ar.front cap=%d e=%s k=%d" % (cap, fl(e), k))
+                add("ar.back cap=%d e=%s k=%d" % (cap, fl(e), k))
         # ---- inplace_string
         for cap in (4, 20):
             sizes = range(cap + 1) if cap == 4 else (0, 1, 7, 19, 20)
@@ -233,6 +236,17 @@ def generate(tier, seed):
                 for a in sorted(set(range(0, min(n, 5) + 3)) | {n, n + 1, n + 2}):
                     for b in sorted(set(range(0, min(n, 5) + 3)) | {n, n + 1, n + 2, cap + 5}):
                         add("str.erase_rng %s a=%s b=%s" % (h, a, b))
+                # insert(index, ...) / erase(index, count): the inserted units fit (insert clamps silently otherwise)
+                ctr = 0
+                for a in idxs(n, cap):
+                    for j, m in enumerate(sorted(x for x in {0, 1, min(3, cap - n), cap - n} if x <= cap - n)):
+                        xs = content(m, 65, 90)
+                        ctr += 1
+                        for k in (range(1, 7) if j == 0 else (1 + ctr % 6,)):   # every overload at every index, then rotating
+                            add("str.insert %s a=%s xs=%s k=%d" % (h, a, fl(xs), k))
+                        add("str.insert_fill %s a=%s b=%d v=%d" % (h, a, m, rnd.randint(97, 122)))
+                    for b in sorted({0, 1, n + 1}) + ["npos"]:
+                        add("str.erase_idx %s a=%s b=%s" % (h, a, b))
                 if n <= 7:
                     for a in range(0, n + 2):
                         for b in range(0, n + 2):
@@ -280,7 +294,7 @@ def generate(tier, seed):
         for d in (0, 1, 12, 31, 254, 255, 256, 300, 2 ** 32 - 1):
             add("day d=%d" % d)
             add("month d=%d" % d)
-        for lay, e in (("layout_left", [1, 2, 6]), ("layout_right", [12, 4, 1])):
+        for lay, e in (("layout_left", [1, 2, 6]), ("layout_right", [12, 4, 1]), ("layout_stride", [24, 8, 2])):
             for r in idxs(3):
                 add("stride l=%s r=%s e=%s" % (lay, r, fl(e)))
         for fn in ("memmove", "strcpy", "strncpy", "wcscpy", "wcsncpy"):
@@ -290,6 +304,19 @@ def generate(tier, seed):
         for fn in ("strchr0", "strchr1"):
             for s in (0, 1):
                 add("null fn=%s s=%d" % (fn, s))
+        for nx in range(0, 4):
+            for ny in range(0, 4):
+                add("linalg fn=copy nx=%d ny=%d" % (nx, ny))
+                add("linalg fn=swap nx=%d ny=%d" % (nx, ny))
+                for nz in range(0, 4):
+                    add("linalg fn=add nx=%d ny=%d nz=%d" % (nx, ny, nz))
+                for r in range(0, 3):
+                    for c in range(0, 3):
+                        add("linalg fn=mvp r=%d c=%d nx=%d ny=%d" % (r, c, nx, ny))
+        for cap in (2, 4, 21):
+            for x in sorted({0, 1, 9, 10, -1, -9, -10, 99, 100, 999, 1000, -99, -100, 2 ** 31 - 1, -(2 ** 31), 2 ** 63 - 1, -(2 ** 63),
+                             rnd.randint(-10 ** 6, 10 ** 6), rnd.randint(-(2 ** 63), 2 ** 63 - 1)}):
+                add("to_string cap=%d x=%d" % (cap, x))
         for m in range(0, 6):
             xs = sorted(set(content(m, 1, 50)))
             add("set.ctor xs=%s ord=1" % fl(xs))
